@@ -16,6 +16,11 @@ from . import core
 
 
 def main(argv):
+    try:
+        import signal
+        signal.signal(signal.SIGPIPE, signal.SIG_DFL)
+    except Exception:
+        pass
     if not argv:
         print(__doc__)
         return 2
